@@ -23,6 +23,9 @@ func init() {
 func runC18(c *Ctx) {
 	p := c.P
 	c.Assume = append(c.Assume, "libp2p consults the connection gater for every dial/accept (third-party behaviour)", "wall-clock behaviour around the expiry instant is not decided")
+	// well-formed traffic never leads to a penalty: the syncers ban the peer that served the bad
+	// data, not the peer whose block happened to start the sync (the rule of C19.R8)
+	checkBanThePeerThatServed(c, "C18.R15 ban-names-the-offender")
 	allowed := c.Anchor("pkg/p2p.(*connectionGater).isPeerConnectionAllowed")
 	addPen := c.Anchor("pkg/p2p.(*connectionGater).addPenalty")
 	start := c.Anchor("pkg/p2p.(*connectionGater).start")
